@@ -2,7 +2,7 @@
    The soundness theorem is stated over Coq's real numbers (stdlib Reals axioms; Flocq's bpow for 2^e). *)
 From PF Require Import Base.Bytes Formats.Stl Formats.StlNormal.
 From Coq Require Import ZArith Lia Reals Lra Psatz.
-From Flocq Require Import Core.Raux Core.Zaux Core.Defs Core.Float_prop.
+From Flocq Require Import Core.Raux Core.Zaux Core.Defs Core.Float_prop IEEE754.Binary IEEE754.Bits.
 Open Scope Z_scope.
 
 (* ---------- the common scale of the corner normals cancels ---------- *)
@@ -191,4 +191,46 @@ Proof.
     - exists sg, m, e. split; [reflexivity|]. eapply fn_word_sound; eassumption.
     - unfold fn_word_ok in Hw. rewrite Hd in Hw. discriminate. }
   intros sk w [[= -> ->] | [[= -> ->] | [= -> ->]]]; apply A; assumption.
+Qed.
+
+(* ---------- the decoder is IEEE-754 binary32 (Flocq's formalisation) ---------- *)
+Open Scope Z_scope.
+Lemma sign_bit x : 0 <= x < 4294967296 -> Z.odd (Z.shiftr x 31) = (2147483648 <=? x).
+Proof.
+  intros Hx. rewrite Z.shiftr_div_pow2 by lia. change (2 ^ 31) with 2147483648.
+  destruct (Z.leb_spec 2147483648 x) as [H|H].
+  - replace (x / 2147483648) with 1; [reflexivity|]. apply Z.div_unique with (x - 2147483648); lia.
+  - rewrite Z.div_small by lia. reflexivity.
+Qed.
+
+(* the decoder of StlNormal.v agrees with Flocq's IEEE-754 binary32: same real number for every finite word *)
+Theorem f32R_flocq x : 0 <= x < 4294967296 -> f32_decode (Z.to_N x) <> None ->
+  B2R 24 128 (b32_of_bits x) = f32R (Z.to_N x).
+Proof.
+  intros Hx Hd. unfold b32_of_bits, binary_float_of_bits. rewrite B2R_FF2B.
+  unfold f32R. unfold f32_decode in *. rewrite Z2N.id in * by lia.
+  unfold binary_float_of_bits_aux, split_bits. cbv zeta.
+  change (SpecFloat.emin (23 + 1) (2 ^ (8 - 1))) with (-149).
+  change (2 ^ 23 * 2 ^ 8) with 2147483648. change (2 ^ 8 - 1) with 255.
+  rewrite sign_bit in * by assumption.
+  assert (L1 : Z.land x 8388607 = x mod 2 ^ 23) by (change 8388607 with (Z.ones 23); apply Z.land_ones; lia).
+  assert (L2 : Z.land (Z.shiftr x 23) 255 = (x / 2 ^ 23) mod 2 ^ 8).
+  { change 255 with (Z.ones 8). rewrite Z.land_ones by lia. rewrite Z.shiftr_div_pow2 by lia. reflexivity. }
+  rewrite L1, L2 in *. clear L1 L2.
+  set (ex := (x / 2 ^ 23) mod 2 ^ 8) in *. set (fr := x mod 2 ^ 23) in *. set (sg := 2147483648 <=? x) in *.
+  assert (Hfr : 0 <= fr) by (apply Z.mod_pos_bound; lia).
+  destruct (Z.eqb_spec ex 255) as [E255|N255]; [congruence|].
+  destruct (Z.eqb_spec ex 0) as [E0|N0].
+  - rewrite (Zeq_bool_true _ _ E0). destruct fr as [|p|p]; [| |lia].
+    + unfold FF2R. destruct sg; simpl; ring.
+    + unfold FF2R, F2R. cbn [Fnum Fexp cond_Zopp]. destruct sg; reflexivity.
+  - rewrite (Zeq_bool_false _ _ N0), (Zeq_bool_false _ _ N255). change (2 ^ 23) with 8388608 at 1.
+    destruct (fr + 8388608) as [|p|p] eqn:Ep; [lia| |lia].
+    unfold FF2R, F2R. cbn [Fnum Fexp cond_Zopp]. replace (ex + -149 - 1) with (ex - 150) by ring. destruct sg; reflexivity.
+Qed.
+
+Theorem f32R_ieee754 (w : N) : (w < 4294967296)%N -> f32_decode w <> None ->
+  B2R 24 128 (b32_of_bits (Z.of_N w)) = f32R w.
+Proof.
+  intros Hw Hd. rewrite <- (N2Z.id w) at 2. apply f32R_flocq; [lia | rewrite N2Z.id; assumption].
 Qed.
